@@ -685,6 +685,75 @@ fn run_error_trace(ops: &[Op]) {
     }
 }
 
+// ---------------------------------------------------------------- decode walk (C10)
+// ops build a card tree out of every card kind; the compiled program is walked front to back by the public
+// disassembler (which steps by Instruction::span()).  Every instruction the compiler emitted through
+// push_instruction has a trace entry keyed by its address: each such address must be an instruction start of the
+// walk, and the walk must end exactly at the end of the bytecode with the final Exit.
+fn build_card(ops: &[Op], pos: &mut usize, depth: usize) -> Card {
+    let o = if *pos < ops.len() { ops[*pos] } else { (0, 0, 0) };
+    *pos += 1;
+    let leaf = depth >= 3 || *pos >= ops.len();
+    let mut sub = |pos: &mut usize| build_card(ops, pos, depth + 1);
+    if leaf {
+        return match o.0 % 8 {
+            0 => Card::scalar_int(o.2),
+            1 => Card::string_card(format!("s{}", o.1)),
+            2 => CardBody::NativeFunction(format!("nf{}", o.1 % 3)).into(),
+            3 => Card::read_var("g"),
+            4 => CardBody::ScalarNil.into(),
+            5 => CardBody::CreateTable.into(),
+            6 => Card::function_value("helper"),
+            _ => CardBody::ScalarFloat(1.5).into(),
+        };
+    }
+    match o.0 % 16 {
+        0 => Card::set_global_var(format!("g{}", o.1 % 3), sub(pos)),
+        1 => Card::set_var(format!("l{}", o.1 % 3), sub(pos)),
+        2 => CardBody::Add(Box::new([sub(pos), sub(pos)])).into(),
+        3 => CardBody::While(Box::new([sub(pos), sub(pos)])).into(),
+        4 => CardBody::IfElse(Box::new([sub(pos), sub(pos), sub(pos)])).into(),
+        5 => CardBody::IfTrue(Box::new([sub(pos), sub(pos)])).into(),
+        6 => Card::repeat(sub(pos), if o.1 % 2 == 0 { Some("i".to_string()) } else { None }, sub(pos)),
+        7 => CardBody::ForEach(Box::new(cao_lang::compiler::ForEach { i: Some("i".into()), k: if o.1 % 2 == 0 { Some("k".into()) } else { None }, v: Some("v".into()), iterable: Box::new(sub(pos)), body: Box::new(sub(pos)) })).into(),
+        8 => Card::call_native(format!("nat{}", o.1 % 3), vec![sub(pos)]),
+        9 => Card::call_function("helper", vec![sub(pos)]),
+        10 => Card::dynamic_call(sub(pos), vec![sub(pos)]),
+        11 => CardBody::Array(vec![sub(pos), sub(pos)]).into(),
+        12 => Card::composite_card("c", vec![sub(pos), sub(pos)]),
+        13 => Card::return_card(sub(pos)),
+        14 => CardBody::Closure(Box::new(Function::default().with_arg("x").with_cards(vec![sub(pos)]))).into(),
+        _ => CardBody::Not(cao_lang::compiler::UnaryExpression { card: Box::new(sub(pos)) }).into(),
+    }
+}
+fn run_decode_walk(ops: &[Op]) {
+    let last = ops.len() - 1;
+    let mut pos = 0;
+    let mut cards = vec![];
+    while pos < ops.len() && cards.len() < 4 { cards.push(build_card(ops, &mut pos, 0)); }
+    let module = Module {
+        functions: vec![
+            ("main".to_string(), Function::default().with_cards(cards)),
+            ("helper".to_string(), Function::default().with_arg("a").with_cards(vec![Card::return_card(Card::read_var("a"))])),
+        ],
+        ..Default::default()
+    };
+    let program = match compile(module, None) { Ok(p) => p, Err(_) => return };
+    let text = program.disassemble_string();
+    let mut starts = std::collections::HashSet::new();
+    let mut last_line = String::new();
+    for line in text.lines() {
+        if let Some((off, name)) = line.split_once('\t') { if let Ok(o) = off.parse::<u32>() { starts.insert(o); last_line = format!("{o} {name}"); } }
+    }
+    for (addr, _) in program.trace.iter() {
+        if !starts.contains(addr) {
+            fail("decode_walk", ops, last, format!("the instruction the compiler emitted at address {addr} is not an instruction start when the program is decoded front to back by span() ({} bytes, walk visited {} instructions)", program.bytecode.len(), starts.len()));
+        }
+    }
+    let want = format!("{} Exit", program.bytecode.len() - 1);
+    if !last_line.starts_with(&want) { fail("decode_walk", ops, last, format!("the front to back walk ends with `{last_line}`, not with the final Exit at {}", program.bytecode.len() - 1)); }
+}
+
 fn dispatch(unit: &str, ops: &[Op], variant: u64) {
     VARIANT.store(variant, std::sync::atomic::Ordering::Relaxed);
     match unit {
@@ -697,6 +766,7 @@ fn dispatch(unit: &str, ops: &[Op], variant: u64) {
         "name_resolution" => run_name_resolution(ops, variant % 4 == 3),
         "label_collision" => run_label_collision(ops),
         "error_trace" => run_error_trace(ops),
+        "decode_walk" => run_decode_walk(ops),
         _ => { eprintln!("unknown unit {unit}"); std::process::exit(2); }
     }
 }
@@ -719,6 +789,7 @@ fn main() {
         return;
     }
     let mut rng = Rng(seed.wrapping_mul(0x9E3779B97F4A7C15) | 1);
+    let last_file = std::env::var("CAO_REPLAY_LAST").ok();
     for it in 0..iters {
         let len = 1 + rng.below(if it % 4 == 0 { 40 } else { 12 }) as usize;
         let nkeys = 2 + rng.below(22);
@@ -731,6 +802,11 @@ fn main() {
             ops.push((4, 0, 0));
             ops.push((3, rng.below(600), 40 + rng.below(57) as i64));
             ops.push((5, rng.below(64), 30 + rng.below(70) as i64));
+        }
+        if let Some(path) = &last_file {
+            // the real code may crash the process (the disassembler transmutes bytes): leave the input behind
+            let txt: Vec<String> = ops.iter().map(|o| format!("{}:{}:{}", o.0, o.1, o.2)).collect();
+            let _ = std::fs::write(path, format!("{} {} {}", unit, it, txt.join(",")));
         }
         dispatch(unit, &ops, it);
     }
